@@ -115,6 +115,17 @@ class C19(Prop):
         T, N, P, E = self.cv.MT6_TNPE(np.matrix(mts[:, 0:1]))
         g0, d0 = self.cv.E_GD(np.asarray(E)[:, 0])
         res['standalone_gamma0'] = float(np.asarray(g0).flatten()[0])
+        # history on a fresh container: strike/dip/rake read, then kappa / h / sigma (derived from them), then strike/dip/rake read again and a subset taken
+        md2 = self.pc.MTData(mts.copy(), probs.copy())
+        try:
+            before = [[float(v) for v in np.asarray(getattr(md2, a_), dtype=float).flatten()] for a_ in ('strike', 'dip', 'rake')]
+            _ = [np.asarray(getattr(md2, a_)) for a_ in ('kappa', 'h', 'sigma')]
+            after = [[float(v) for v in np.asarray(getattr(md2, a_), dtype=float).flatten()] for a_ in ('strike', 'dip', 'rake')]
+            sub2 = md2[:, key]
+            res['sdr_before'], res['sdr_after'] = before, after
+            res['sdr_sub'] = [[float(v) for v in np.asarray(getattr(sub2, a_), dtype=float).flatten()] for a_ in ('strike', 'dip', 'rake')]
+        except Exception as e:       # containers of a single tensor may not convert: not part of this history
+            res['sdr_exc'] = '%s: %s' % (type(e).__name__, e)
         return res
 
     # ------------------------------------------------------------------ model
@@ -222,6 +233,14 @@ class C19(Prop):
         if len(got) != len(impl['uniq_cols']) or got != cnt:
             out.append(('unique-counts', 'unique samples with counts do not match the chain (%d distinct, counts sum %d, chain length %d)' %
                         (len(impl['uniq_cols']), int(sum(impl['uniq_counts'])), len(cols)), None))
+        if 'sdr_before' in impl:
+            for nm_, b_, a_, sb_ in zip(('strike', 'dip', 'rake'), impl['sdr_before'], impl['sdr_after'], impl['sdr_sub']):
+                if len(b_) == len(a_) and any(not (x_ == y_ or (x_ != x_ and y_ != y_)) for x_, y_ in zip(b_, a_)):
+                    out.append(('derived-history', 'reading kappa / h / sigma changed the container\'s %s (a converted parameter must stay that of its tensor)' % nm_, None))
+                    break
+                if len(b_) == len(case['cols']) and len(sb_) == len(idx) and any(not (b_[i_] == s_ or (b_[i_] != b_[i_] and s_ != s_)) for i_, s_ in zip(idx, sb_)):
+                    out.append(('index-alignment', '%s of the indexed container (taken after kappa / h / sigma were read) is not that of the selected tensors' % nm_, None))
+                    break
         if not close(impl['gamma'][0], impl['standalone_gamma0'], atol=1e-12):
             out.append(('derived', 'container gamma %r differs from the stand-alone conversion %r' % (impl['gamma'][0], impl['standalone_gamma0']), None))
         return out[:3]
